@@ -69,7 +69,7 @@ func Gen(seed uint64, profile string) *Scenario {
 	genTree(simkit.NewRNG(seed, "pw/tree"), sc, &k)
 	if k.concShared {
 		for i, n := range []string{"big-1.bin", "big-2.bin"} {
-			sc.Tree = append(sc.Tree, TNode{Root: "src", Path: n, Kind: "file", Mode: 0o644, Tok: "IN-big" + strconv.Itoa(i) + ";", Size: 40000 + 9000*i, Sec: 1300000000 + int64(i)})
+			sc.Tree = append(sc.Tree, TNode{Root: "src", Path: n, Kind: "file", Mode: 0o644, Tok: "IN-big" + strconv.Itoa(i) + ";", Size: 70000 + 20000*i, Sec: 1300000000 + int64(i)})
 		}
 	}
 	if k.rules {
